@@ -260,6 +260,14 @@ def _loop_spec(eng, node, fr):
     return ordinal, spec
 
 
+def _body_ensures(eng, spec, st, fr, extra, pre, node):
+    """per-iteration postcondition of a loop body (state at the end of the iteration; k_ = index of this iteration)"""
+    if getattr(spec, "body_ensures", None) is None:
+        return
+    ns = eng.namespace(st, entry=fr.fn["entry"], extra=extra)
+    eng.oblige_clauses("loop-body", pre + ":every iteration", st, spec.body_ensures(eng.S, ns), node)
+
+
 def _inv(eng, spec, st, fr, extra):
     ns = eng.namespace(st, entry=fr.fn["entry"], extra=extra)
     return spec.invariant(eng.S, ns)
@@ -280,6 +288,7 @@ def while_loop(eng, s, st, fr, k):
 
         def body_end(s2):
             eng.oblige_clauses("invariant-preserve", pre, s2, _inv(eng, spec, s2, fr, {}), s)
+            _body_ensures(eng, spec, s2, fr, {}, pre, s)
             if var0 is not None:
                 var1 = spec.variant(eng.S, eng.namespace(s2, entry=fr.fn["entry"]))
                 eng.oblige("variant", f"{pre}:decreases", s2, z3.And(var0 >= 0, var1 < var0), s)
@@ -408,6 +417,7 @@ def cut_loop(eng, s, it, st, fr, k):
 
     def body_end(s2):
         eng.oblige_clauses("invariant-preserve", pre, s2, _inv(eng, spec, s2, fr, {"k_": kk + 1, "n_": n}), s)
+        _body_ensures(eng, spec, s2, fr, {"k_": kk, "n_": n}, pre, s)
         eng.canary(f"{pre}:body-end", s2, s)
     fr_body = fr.with_(brk=lambda s2: k(s2), cont=body_end)
     eng.assign(s.target, elem(kk, sh_it), sh_it, fr, lambda s2: eng.ex(s.body, s2, fr_body, body_end), s)
